@@ -86,7 +86,7 @@ def main():
     for k, o in enumerate(osets):
         sub = texts if k == 0 else texts[::3]
         chunks = [sub[i:i + 200] for i in range(0, len(sub), 200)]
-        with mp.get_context("spawn").Pool(16, initializer=_init, initargs=(o,)) as p:
+        with mp.get_context("spawn").Pool(int(os.environ.get("COV_NPROC", "16")), initializer=_init, initargs=(o,)) as p:
             for r in p.imap_unordered(_work, chunks):
                 hit.update(map(tuple, r))
         print("option set %s: %d blocks, %d lines hit so far" % (gasol.optset_name(o), len(sub), len(hit)), file=sys.stderr)
